@@ -433,3 +433,10 @@ package cluster
 //@   ensures callres(RendezvousHash, 1, 0)[0] != c.MyHostname && !old(contains(postage, callres(RendezvousHash, 1, 0)[0])) ==> postage[callres(RendezvousHash, 1, 0)[0]].RPCRequestArgs.Dest == callres(RendezvousHash, 1, 0)[0]
 //@   ensures callres(RendezvousHash, 1, 0)[0] != c.MyHostname ==> contains(postage[callres(RendezvousHash, 1, 0)[0]].KeyValues, string(k)) && postage[callres(RendezvousHash, 1, 0)[0]].KeyValues[string(k)] == v
 //@   ensures callres(RendezvousHash, 1, 0)[0] == c.MyHostname ==> forallv(d string, contains(postage, d) == old(contains(postage, d)))
+
+//@ func (*ClusterNode).syncShards
+//@   property C13 C14
+//@   safety -overflow -nil -index
+//@   requires len(c.Servers) >= 1
+//@   before RendezvousHash requires arg0 == callres(Base, 1, 0) && callarg(Base, 1, 0) == callres(Dir, 1, 0) && callarg(Dir, 1, 0) == path && arg1 == c.Servers && arg2 == 1
+//@   loop 1 invariant rangeindex >= -1 && rangeindex < len(shardPaths)
